@@ -62,7 +62,7 @@ def decode_bytes(data, encoding=None, csv_kwargs=None):
         if encoding is None:
             import locale
 
-            enc = locale.getpreferredencoding(False)
+            enc = locale.getencoding()
         else:
             enc = encoding
         text = data.decode(enc)
